@@ -1,6 +1,7 @@
 package main
 
 import (
+	"go/types"
 	"strings"
 
 	"golang.org/x/tools/go/ssa"
@@ -87,8 +88,31 @@ func c15CreateURL(w *World, r *Report) {
 
 func c15Rewriter(w *World, r *Report) {
 	ri := r.Rule("C15.2", 4, "rewrite: strip the prefix, then add the prefix; scheme only if configured; query parameters removed from the raw query")
-	tp := w.MethodOf("internal/rules/config", "URLRewriter", "transformPath")
 	rwFn := w.MethodOf("internal/rules/config", "URLRewriter", "Rewrite")
+	// the path transformer: the method of the same receiver that Rewrite calls with a path (string -> string)
+	var tp *ssa.Function
+	if rwFn != nil {
+		for _, c := range callsIn(rwFn) {
+			cal := c.Common().StaticCallee()
+			if cal == nil || cal.Signature.Recv() == nil || rwFn.Signature.Recv() == nil || !types.Identical(cal.Signature.Recv().Type(), rwFn.Signature.Recv().Type()) {
+				continue
+			}
+			if cal.Signature.Params().Len() == 1 && cal.Signature.Results().Len() == 1 && isString(cal.Signature.Params().At(0).Type()) && isString(cal.Signature.Results().At(0).Type()) {
+				// ... and whose result becomes the URL's (raw) path
+				toPath := false
+				eachInstr(rwFn, func(in ssa.Instruction) {
+					if st, ok := in.(*ssa.Store); ok && pathEndsWith(st.Addr, "RawPath") {
+						if dependsOn(w, st.Val, func(x ssa.Value) bool { cv, isV := c.(ssa.Value); return isV && x == cv }) {
+							toPath = true
+						}
+					}
+				})
+				if toPath {
+					tp = cal
+				}
+			}
+		}
+	}
 	if tp == nil || rwFn == nil {
 		r.Undecided(ri, "URLRewriter methods not found")
 		return
